@@ -296,8 +296,7 @@ PROPS = {
         "spok --clean is invoked from the directory of the spokfile (from nested directories a relative variable output is resolved "
         "against the working directory: compared with the model, not judged)",
         "the user's clean task only prints (the judge attributes every removal to spok itself)",
-        "outputs below a regular file (os.Stat: ENOTDIR) make the whole --clean fail with nothing removed: compared with the model, "
-        "not judged, reported as a finding candidate",
+        "an output below a regular file (os.Stat / os.RemoveAll: ENOTDIR) designates nothing and is skipped (repair 85950c0); judged like any other case",
         "no symlinks, no permission failures, a valid or absent cache file",
     ]},
     "C13": {"engine": "env", "modelled": ENV_MODELLED, "assumptions": [
